@@ -507,6 +507,27 @@ func encodeWith(e *types.Encoder, val *value, hsm types.HashSegmentMap) ([]byte,
 	return e.Encode(val.v)
 }
 
+// strLen: string lengths at the boundaries of the compact length prefix (one, two, three octets)
+func strLen(t *sim.Tape, small int) int {
+	switch t.Pick([]int{6, 1, 1, 1, 1, 1, 1, 1}, "strlen_class") {
+	case 1:
+		return 127 + t.Choose(3, "strlen_127")
+	case 2:
+		return 16383
+	case 3:
+		return 16384 + t.Choose(3, "strlen_16384")
+	case 4:
+		return 20000 + t.Choose(1000, "strlen_20000")
+	case 5:
+		return 70000
+	case 6:
+		return 255 + t.Choose(3, "strlen_255")
+	case 7:
+		return 0
+	}
+	return t.Choose(small, "strlen_small")
+}
+
 func mkMessage(g *gen, vals []*value) *fuzz.Message {
 	t := g.t
 	switch t.Choose(7, "msg_kind") {
@@ -514,9 +535,10 @@ func mkMessage(g *gen, vals []*value) *fuzz.Message {
 		pi := &fuzz.PeerInfo{FuzzVersion: uint8(t.Choose(256, "fv")), FuzzFeatures: fuzz.Features(g.u64(32)),
 			JamVersion: fuzz.Version{Major: uint8(t.Choose(256, "v")), Minor: uint8(t.Choose(256, "v")), Patch: uint8(t.Choose(256, "v"))},
 			AppVersion: fuzz.Version{Major: uint8(t.Choose(256, "v")), Minor: uint8(t.Choose(256, "v")), Patch: uint8(t.Choose(256, "v"))}}
-		name := make([]byte, t.Choose(20, "name_len"))
+		name := make([]byte, strLen(t, 20))
+		seedc := t.Choose(26, "name")
 		for i := range name {
-			name[i] = 'a' + byte(t.Choose(26, "name"))
+			name[i] = 'a' + byte((seedc+i)%26)
 		}
 		pi.AppName = string(name)
 		return &fuzz.Message{Type: fuzz.MessageType_PeerInfo, PeerInfo: pi}
@@ -543,9 +565,10 @@ func mkMessage(g *gen, vals []*value) *fuzz.Message {
 		st := fuzz.State(kv)
 		return &fuzz.Message{Type: fuzz.MessageType_State, State: &st}
 	default:
-		txt := make([]byte, t.Choose(30, "err_len"))
+		txt := make([]byte, strLen(t, 30))
+		seede := t.Choose(90, "err")
 		for i := range txt {
-			txt[i] = ' ' + byte(t.Choose(90, "err"))
+			txt[i] = ' ' + byte((seede+i*7)%90)
 		}
 		return &fuzz.Message{Type: fuzz.MessageType_ErrorMessage, Error: &fuzz.ErrorMessage{Error: string(txt)}}
 	}
